@@ -41,7 +41,9 @@ def worker_table(prog):
     def branches(node):
         if isinstance(node, ast.If) and isinstance(node.test, ast.Compare) and U(node.test.left) == taskvar \
                 and isinstance(node.test.comparators[0], ast.Constant):
-            yield node.test.comparators[0].value, node.body
+            # only an equality test makes the arm the handler of that task (`!=` makes it the handler of every other one)
+            if len(node.test.ops) == 1 and isinstance(node.test.ops[0], ast.Eq):
+                yield node.test.comparators[0].value, node.body
             for o in node.orelse:
                 yield from branches(o)
     top = [s for s in ast.walk(tp) if isinstance(s, ast.If) and isinstance(s.test, ast.Compare)
